@@ -624,9 +624,106 @@ func (s *wfState) handleStats() string {
 	return fullStats(s.store.current.msg, s.clock.now)
 }
 
+// historySnapshot renders the previous executions per size class of the
+// message behind the outstanding learner's handle.
+func (s *wfState) historySnapshot() map[uint32][]string {
+	r := map[uint32][]string{}
+	if s.store.current == nil {
+		return r
+	}
+	for k, v := range s.store.current.msg.GetSizeClasses() {
+		var l []string
+		for _, pe := range v.GetPreviousExecutions() {
+			l = append(l, renderExecution(pe))
+		}
+		r[k] = l
+	}
+	return r
+}
+
+func lastN(l []string, n int) []string {
+	if len(l) > n {
+		return l[len(l)-n:]
+	}
+	return l
+}
+
+// checkHistory: "a later update is never ... dropped in favour of an earlier
+// one". A terminal call of a learner records at most ONE new outcome per size
+// class; so for every size class the list in the message that is written to
+// the ISCC is either untouched, or the previous list plus the new outcome AT
+// THE END, cut to the last historySize entries (the OLDEST are the ones that
+// go). wantLast (if non-empty): the outcome this very call reports; if the
+// call updated any size class, it is the newest entry of one of them.
+func (s *wfState) checkHistory(call, chain string, before map[uint32][]string, wantClass uint32, wantLast string) {
+	if s.cfg.analyzer == "fallback" || s.store.current == nil {
+		return
+	}
+	after := s.historySnapshot()
+	var updated []string
+	found := false
+	_ = wantClass
+	seen := map[uint32]bool{}
+	var classes []uint32
+	for k := range before {
+		seen[k] = true
+		classes = append(classes, k)
+	}
+	for k := range after {
+		if !seen[k] {
+			classes = append(classes, k)
+		}
+	}
+	sort.Slice(classes, func(i, j int) bool { return classes[i] < classes[j] })
+	for _, k := range classes {
+		b, a := before[k], after[k]
+		if strings.Join(a, ",") == strings.Join(b, ",") {
+			continue
+		}
+		if len(a) == 0 {
+			s.fail("wf/history/"+call+"/dropped", "%s: the recorded executions %v of size class %d disappeared; history: %s", call, b, k, chain)
+			return
+		}
+		// One new outcome per EXECUTION of the action: one, or two when the
+		// call closes a chain with a failed first attempt and a retry (both
+		// may be attributed to the same size class if the set of size
+		// classes changed in between).
+		maxNew := 1
+		if strings.Contains(chain, ";Failed(") {
+			maxNew = 2
+		}
+		ok := false
+		for k := 1; k <= maxNew && k <= len(a); k++ {
+			want := lastN(append(append([]string(nil), b...), a[len(a)-k:]...), historySize)
+			if strings.Join(a, ",") == strings.Join(want, ",") {
+				ok = true
+			}
+		}
+		if !ok {
+			s.fail("wf/history/"+call+"/not-previous-plus-newest", "%s: previous executions of size class %d were %v and are now %v: not the previous list plus the (at most %d) new outcome(s) at the end cut to the last %d (an older sample was kept in favour of a newer one); history: %s", call, k, b, a, maxNew, historySize, chain)
+			return
+		}
+		updated = append(updated, fmt.Sprintf("%d:%v->%v", k, b, a))
+	}
+	// (Equal renderings hide an update: look at every class.)
+	for _, a := range after {
+		if len(a) > 0 && a[len(a)-1] == wantLast {
+			found = true
+		}
+	}
+	// (Which size class the learner attributes the outcome to is its own
+	// business - the list of size classes may have changed since Select.)
+	if wantLast != "" && len(updated) > 0 && !found {
+		s.fail("wf/history/"+call+"/newest-is-not-this-outcome", "%s reported %s, but that is not the newest recorded execution of any size class it updated (%v); history: %s", call, wantLast, updated, chain)
+	}
+}
+
 func (s *wfState) doSucceeded(d time.Duration) {
 	list := s.list()
+	hist, ranOn := s.historySnapshot(), s.running
 	s.chain += fmt.Sprintf(";Succeeded(%s,%v)", d, list)
+	chain := s.chain
+	defer func() { s.checkHistory("Succeeded", chain, hist, ranOn, "S("+d.String()+")") }()
 	var idx int
 	var expected, timeout time.Duration
 	var learner initialsizeclass.Learner
@@ -644,7 +741,10 @@ func (s *wfState) doSucceeded(d time.Duration) {
 }
 
 func (s *wfState) doFailed(timedOut bool) {
+	hist := s.historySnapshot()
 	s.chain += fmt.Sprintf(";Failed(%v)", timedOut)
+	chain := s.chain
+	defer func() { s.checkHistory("Failed", chain, hist, 0, "") }()
 	var expected, timeout time.Duration
 	var learner initialsizeclass.Learner
 	s.guarded("Failed", func() { expected, timeout, learner = s.learner.Failed(timedOut) })
@@ -663,6 +763,8 @@ func (s *wfState) doFailed(timedOut bool) {
 }
 
 func (s *wfState) doAbandoned() {
+	hist := s.historySnapshot()
+	defer s.checkHistory("Abandoned", s.chain+";Abandoned", hist, 0, "")
 	s.guarded("Abandoned", s.learner.Abandoned)
 	if s.c.Verbose() {
 		s.c.Logf("Abandoned(); persisted stats %s", fullStats(s.store.persisted, s.clock.now))
